@@ -1178,7 +1178,12 @@ fn c16_case(ctx: &mut Ctx, d: &Desc) {
   match guard(|| c1.clone().try_as_spdc().map(|s2| s2.as_config())) {
     Some(Ok(c2)) => match config_close(&c1, &c2, 1e-9) {
       Ok(()) => ctx.s("C16.fixpoint", true, "roundtrip/fixpoint", &det),
-      Err(why) => ctx.s("C16.fixpoint", false, "roundtrip/fixpoint", &format!("{} {}", why, det)),
+      Err(why) => {
+        // an azimuth within half a unit of the 4th decimal below 360° is emitted as 360.0, which the
+        // constructor wraps to 0
+        let sig = if why.contains("phi_deg first=3.6e2 second=0e0") { "roundtrip/fixpoint/phi-rounds-to-360" } else { "roundtrip/fixpoint" };
+        ctx.s("C16.fixpoint", false, sig, &format!("{} {}", why, det));
+      }
     },
     Some(Err(e)) => ctx.s("C16.fixpoint", false, "roundtrip/second-conversion-err", &format!("err={:?} {}", e.0, det)),
     None => ctx.s("C16.fixpoint", false, "roundtrip/second-conversion-panic", &det),
@@ -1200,10 +1205,17 @@ fn c16_case(ctx: &mut Ctx, d: &Desc) {
     let txt = serde_json::to_string(&s).ok()?;
     let back = SPDC::from_json(&txt).ok()?;
     let c = back.as_config();
-    Some(config_close(&c1, &c, 1e-9).is_ok())
+    Some(config_close(&c1, &c, 1e-9))
   })
   .flatten();
-  ctx.s("C16.json", js2 == Some(true), "json/spdc-via-config", &det);
+  match js2 {
+    Some(Ok(())) => ctx.s("C16.json", true, "json/spdc-via-config", &det),
+    Some(Err(why)) => {
+      let sig = if why.contains("phi_deg first=3.6e2 second=0e0") { "json/spdc-via-config/phi-rounds-to-360" } else { "json/spdc-via-config" };
+      ctx.s("C16.json", false, sig, &format!("{} {}", why, det));
+    }
+    None => ctx.s("C16.json", false, "json/spdc-via-config", &det),
+  }
 }
 
 /// omitted optional fields = documented defaults
@@ -1461,6 +1473,14 @@ pub fn run(ctx: &mut Ctx) {
           ctx.s("C16.fields", false, fields_sig(&why), &format!("{} setup=SPDC::default()", why));
         }
       }
+    }
+    // boundary: azimuths that round up to 360.0000
+    for phi in [359.99996, 359.99995, 359.9999, 359.99994] {
+      let mut d = gen_valid(&mut ctx.rng);
+      d.signal.phi = Some(phi);
+      d.signal.theta = Some(0.5);
+      d.signal.theta_e = None;
+      c16_case(ctx, &d);
     }
     for _ in 0..ctx.n {
       let d = gen_valid(&mut ctx.rng);
